@@ -240,7 +240,10 @@ func check(x *explore.Exec, sc *Scn, r *result) {
 		x.Fail("horizon", "step horizon exceeded; %s", desc())
 		return
 	}
-	if r.out.Deadlock {
+	// a burst size without a rate never refills: once the burst is used up the reader waits for
+	// ever, which is what the configuration says
+	burstOnly := (sc.Rate == 0 && sc.Burst > 0) || (sc.TotalRate == 0 && sc.TotalBurst > 0)
+	if r.out.Deadlock && !burstOnly {
 		x.Fail("deadlock", "threads blocked forever: %v; %s", r.out.Blocked, desc())
 		return
 	}
@@ -253,6 +256,9 @@ func check(x *explore.Exec, sc *Scn, r *result) {
 	t0all := int64(-1)
 	for k, c := range r.conns {
 		want := payload(k, sc.Size)
+		if burstOnly {
+			want = want[:min(len(want), len(r.data[k]))] // whatever got through is a prefix
+		}
 		if string(r.data[k]) != string(want) {
 			x.Fail("stream-not-intact", "connection %d: the handler behind the throttle read %q, the client sent %q; %s", k, r.data[k], want, desc())
 		}
@@ -343,6 +349,16 @@ func scenarios(tier string, yield func(any) bool) {
 			}
 			for _, sz := range []int{8, 20} {
 				if !yield(&Scn{Rate: p.rate, Burst: p.burst, TotalRate: t.rate, TotalBurst: t.burst, Size: sz, Buf: 64, Supply: "all", Conns: 1, Form: "caddyfile"}) {
+					return
+				}
+			}
+		}
+	}
+	// a burst size without a rate: the burst is all the connection(s) ever get
+	for _, conns := range []int{1, 2} {
+		for _, lim := range [][2]int{{3, 0}, {0, 5}, {3, 5}} {
+			for _, buf := range []int{1, 5, 64} {
+				if !yield(&Scn{Burst: lim[0], TotalBurst: lim[1], Size: 8, Buf: buf, Supply: "all", Conns: conns}) {
 					return
 				}
 			}
